@@ -116,6 +116,7 @@ def do_run(sid, tier='quick', extra_env=None, in_repo=False):
                 return 4
             env = dict(extra_env or {})
             env['PYTHONPATH'] = wt
+            env['VERIF_EVIDENCE_DIR'] = '/tmp/seedrun-evidence'
             rc, out = sh('timeout 3000 %s %s/run_check.py %s --tier %s 2>&1 '
                          '| grep -v "^here"' % (PY, HERE, prop, tier),
                          cwd=HERE, env=env, timeout=3200)
